@@ -1,6 +1,7 @@
 package main
 
 import (
+	"strconv"
 	"strings"
 
 	"golang.org/x/tools/go/ssa"
@@ -129,6 +130,14 @@ func checkBase64Guards(p *Program, r *Result, fns []*ssa.Function) {
 			if i > 0 {
 				key += "#" + itoa(i+1)
 			}
+			if !ok {
+				// the same rejection spelled per character (IndexByte(x, '\r') < 0, !Contains, ...)
+				a1, ok1 := rejectsChar(facts, srcKey, 13)
+				_, ok2 := rejectsChar(facts, srcKey, 10)
+				if ok1 && ok2 {
+					a, ok = a1, true
+				}
+			}
 			if ok {
 				r.OK(fn.String(), key, r.pos(c), "", guardWitness(p, a))
 			} else {
@@ -136,6 +145,76 @@ func checkBase64Guards(p *Program, r *Result, fns []*ssa.Function) {
 			}
 		}
 	}
+}
+
+// rejectsChar: a fact that the value with the given key does not contain the character c.
+func rejectsChar(facts []Atom, srcKey string, c int64) (Atom, bool) {
+	isChar := func(t *Term) bool {
+		if t == nil {
+			return false
+		}
+		if n, ok := intConst(t); ok && n == c {
+			return true
+		}
+		// "\r", []byte("\r"), []byte{13}
+		q := strconv.Quote(string(rune(c)))
+		if t.Op == "Const" && t.S == q {
+			return true
+		}
+		if (t.Op == "Conv" || t.Op == "List") && len(t.Args) == 1 {
+			if n, ok := intConst(t.Args[0]); ok && n == c {
+				return true
+			}
+			return t.Args[0].Op == "Const" && t.Args[0].S == q
+		}
+		return false
+	}
+	return findFact(facts, func(a Atom) bool {
+		switch a.Kind {
+		case "call":
+			// !Contains(x, c), !ContainsRune(x, c)
+			if a.Pol || a.Call == nil || len(a.Call.Args) != 2 || a.Call.Args[0].Key() != srcKey {
+				return false
+			}
+			switch a.Call.S {
+			case "bytes.Contains", "strings.Contains", "bytes.ContainsRune", "strings.ContainsRune":
+				return isChar(a.Call.Args[1])
+			}
+		case "cmp":
+			// Index*(x, c) < 0, == -1
+			x, y, op := a.X, a.Y, a.Op
+			if x == nil || y == nil {
+				return false
+			}
+			if x.Op != "Call" {
+				x, y = y, x
+				switch op {
+				case "<":
+					op = ">"
+				case ">":
+					op = "<"
+				case "<=":
+					op = ">="
+				case ">=":
+					op = "<="
+				}
+			}
+			if x.Op != "Call" || len(x.Args) != 2 || x.Args[0].Key() != srcKey || !isChar(x.Args[1]) {
+				return false
+			}
+			switch x.S {
+			case "bytes.IndexByte", "strings.IndexByte", "bytes.IndexRune", "strings.IndexRune", "bytes.Index", "strings.Index":
+			default:
+				return false
+			}
+			k, isK := intConst(y)
+			if !isK {
+				return false
+			}
+			return op == "<" && k == 0 || op == "==" && k == -1 || op == "<=" && k == -1
+		}
+		return false
+	})
 }
 
 // checkCanonicalParse is rule R07.1 (shared with C03 R03.7): the rejections
